@@ -8,7 +8,7 @@ fn g_cfg(r: &mut Rng, mode: &str) -> (Cfg, Vec<u64>) {
     let threshold = r.pick(&[1u32, 1, 2, 3, rwnd, rwnd + 1, 2 * rwnd, rwnd.saturating_sub(1).max(1)]);
     let accept_q = r.pick(&[1usize, 1, 2, 4]);
     let dgram_q = r.pick(&[1usize, 2, 3]);
-    let bind_q = r.pick(&[0usize, 1, 2]);
+    let bind_q = if mode.contains("bind") { r.pick(&[0usize, 1, 1, 2, 2]) } else { r.pick(&[0usize, 1, 2]) };
     let retries = r.pick(&[1usize, 2, 3]);
     // rng script: small ids so that collisions (with live flows, with the peer's choice, zero) happen
     let n = if mode.contains("collide") { 12 } else { r.below(6) as usize };
@@ -37,8 +37,65 @@ pub fn one_script(r: &mut Rng, nlabels: usize, mode: &str) -> (Vec<u64>, Vec<u64
     case.extend(eb);
     let mut w = World::new(&ca, &cb);
     let mut tag = 0u8;
+    let inject = mode.contains("inject");
+    let wd = if mode.contains("dgram") { 8 } else { 1 };
+    let wb = if mode.contains("bind") { 6 } else { 1 };
     for _ in 0..nlabels {
         let mut cands: Vec<(u32, Vec<u64>)> = Vec::new();
+        if inject {
+            // the harness plays a misbehaving peer of endpoint 0: any opcode on live, stale,
+            // unknown and zero flow ids; undecodable messages; control messages
+            let mut ids: Vec<u64> = vec![0, 1, 2, 3, 0xdead_beef];
+            ids.extend(w.fids(0).iter().copied());
+            let id = r.pick(&ids);
+            let idb = [(id >> 24) & 255, (id >> 16) & 255, (id >> 8) & 255, id & 255];
+            let opc = r.below(7);
+            let mut fr: Vec<u64> = vec![0x70 | opc];
+            fr.extend(idb);
+            match opc {
+                0 => {
+                    fr.extend([0, 0, 0, r.pick(&[0u64, 1, 2, 200])]);
+                    fr.extend([0, 80]);
+                    if r.chance(1, 2) {
+                        fr.push(97);
+                    }
+                }
+                1 => fr.extend([0, 0, r.pick(&[0u64, 0, 255]), r.pick(&[0u64, 1, 2, 255])]),
+                2 | 3 => {}
+                4 => {
+                    let n = r.pick(&[0usize, 1, 1, 3]);
+                    for i in 0..n {
+                        fr.push(200 + i as u64);
+                    }
+                }
+                5 => {
+                    fr.extend([r.pick(&[1u64, 3, 1, 2]), 0, 22]);
+                }
+                _ => {
+                    fr.extend([r.pick(&[0u64, 1, 1, 9]), 0, 53, 104]);
+                    let n = r.below(4);
+                    for i in 0..n {
+                        fr.push(i);
+                    }
+                }
+            }
+            let mut l = vec![27, 0, 0];
+            l.push(fr.len() as u64);
+            l.extend(fr);
+            cands.push((5, l));
+            if r.chance(1, 25) {
+                let n = r.below(5);
+                let mut l = vec![27, 0, 0, n];
+                for _ in 0..n {
+                    l.push(r.pick(&[0u64, 0x70, 0x71, 0x79, 0x80, 0xff, 1]));
+                }
+                cands.push((1, l));
+            }
+            cands.push((1, vec![27, 0, r.pick(&[1u64, 2])]));
+            if r.chance(1, 30) {
+                cands.push((1, vec![27, 0, 3]));
+            }
+        }
         for d in 0..2 {
             if w.link_len(d) > 0 {
                 cands.push((6 + 2 * w.link_len(d).min(4) as u32, vec![18, d as u64]));
@@ -67,24 +124,24 @@ pub fn one_script(r: &mut Rng, nlabels: usize, mode: &str) -> (Vec<u64>, Vec<u64
                     lp(&mut l, &host);
                     let data = g_data(r, 9);
                     lp(&mut l, &data);
-                    cands.push((1, l));
+                    cands.push((wd, l));
                 }
-                cands.push((1, vec![20, eu]));
+                cands.push((wd, vec![20, eu]));
                 let bpending: Vec<usize> = (0..w.n_binds(e)).filter(|&k| w.bind_pending(e, k)).collect();
                 if bpending.len() < 2 {
                     let mut l = vec![21, eu, r.pick(&[1u64, 3]), r.pick(&[0u64, 8080])];
                     let host: Vec<u8> = (0..r.pick(&[0usize, 2])).map(|_| r.pick(b"xy")).collect();
                     lp(&mut l, &host);
-                    cands.push((if bind_enabled[1 - e] { 2 } else { 1 }, l));
+                    cands.push((wb * if bind_enabled[1 - e] { 2 } else { 1 }, l));
                 }
                 for k in bpending {
-                    cands.push((2, vec![22, eu, k as u64]));
+                    cands.push((2 * wb, vec![22, eu, k as u64]));
                 }
-                cands.push((1, vec![23, eu]));
+                cands.push((wb, vec![23, eu]));
                 for k in 0..w.n_bindreqs(e) {
                     if w.bindreq_alive(e, k) {
-                        cands.push((2, vec![24, eu, k as u64, r.below(2)]));
-                        cands.push((2, vec![25, eu, k as u64]));
+                        cands.push((2 * wb, vec![24, eu, k as u64, r.below(2)]));
+                        cands.push((wb, vec![25, eu, k as u64]));
                     }
                 }
                 if w.mux_alive(e) && mode.contains("drop") {
@@ -131,6 +188,13 @@ pub fn one_script(r: &mut Rng, nlabels: usize, mode: &str) -> (Vec<u64>, Vec<u64
             }
             pick -= wt;
         }
+        {
+            let mut cur = crate::CURRENT.lock().unwrap();
+            *cur = case.clone();
+            cur.push(chosen.len() as u64);
+            cur.extend(&chosen);
+        }
+        crate::PROGRESS.fetch_add(1, std::sync::atomic::Ordering::SeqCst);
         if !w.label(&chosen) {
             break;
         }
